@@ -1,11 +1,13 @@
 package props
 
 import (
+	"encoding/binary"
 	"errors"
 	"fmt"
 	"math/rand/v2"
 	"os"
 	"path/filepath"
+	"sort"
 	"strings"
 	"time"
 
@@ -27,7 +29,7 @@ func (C04) Rule() string {
 		"Oracle per crash point: start-up succeeds without repair; graph invariants hold; the snapshot equals the fault-free snapshot before or after the interrupted operation (entirely absent or entirely present) " +
 		"and contains every earlier acknowledged operation; retrying the interrupted operation and the remaining operations then work and keep the invariants; a sample of crash points gets a second crash during the recovery start-up; " +
 		"JSON mutation-log files are cut at every byte length inside their last record and must yield exactly the complete records. " +
-		"non-trivial = a crash actually fired inside an operation; distinct = distinct (workload, crash point) pairs"
+		"a torn-filelog family runs label operations (merge, cleave, renumber, supervoxel split) that append to the binary mutation log of a labelmap version, kills the process and leaves that log cut at EVERY byte length inside its last record and at its boundaries; each cut is followed by a start-up and mapping-dependent reads: no start-up failure, no panic, a log cut inside the last record must read exactly like the log without that record, the intact log like the model. non-trivial = a crash actually fired inside an operation; distinct = distinct (workload, crash point) pairs"
 }
 func (C04) Assumptions() []string {
 	return append([]string{"crash = process death with Badger's files as the kernel has them (no torn writes inside Badger, no power loss)",
@@ -38,6 +40,18 @@ func (C04) Budget(tier string) (int, time.Duration) {
 }
 
 func (C04) Generate(r *rand.Rand, tier string, idx int) *drv.Scenario {
+	if idx%6 == 4 {
+		// torn-filelog family: label operations that append to the binary mutation log of one version, then the
+		// process is killed and the log is left cut at EVERY byte length inside its last record (and at its
+		// boundaries); every cut is followed by a start-up and the mapping-dependent reads
+		seed := func() int64 { return int64(r.Uint64N(1 << 40)) }
+		steps := []drv.Op{{Op: "lrepo", P: [][]int{{16}, {2, 1, 1}, {0, 0, 0}}}, {Op: "ingest", V: 0, N: seed()}, {Op: "ingest", V: 0, N: seed()}}
+		for i := 0; i < 1+r.IntN(4); i++ {
+			steps = append(steps, drv.Op{Op: pick(r, []string{"lmerge", "lmerge", "cleave", "renumber", "splitsv"}), V: 0, N: seed()})
+		}
+		steps = append(steps, drv.Op{Op: "tornlog"})
+		return &drv.Scenario{Family: "torn-filelog", Knobs: baseKnobs(r), Steps: steps, Fixed: 3}
+	}
 	var steps []drv.Op
 	d := NewDAG()
 	steps = append(steps, drv.Op{Op: "repo", R: 0, N: 0}, drv.Op{Op: "inst", R: 0, I: "kv", T: "keyvalue"})
@@ -199,6 +213,9 @@ func scrubUpdated(js string) string {
 }
 
 func (c C04) Execute(sc *drv.Scenario, w *drv.World) (*drv.Violation, error) {
+	if sc.Family == "torn-filelog" {
+		return c.tornFilelog(sc, w)
+	}
 	// ---- 1. fault-free reference run ----
 	ref := w.Sub("ref")
 	defer ref.Close()
@@ -534,4 +551,165 @@ func (c C04) tornJSONLog(cw *drv.World, x *KVExec, what string) (*drv.Violation,
 	return nil, nil
 }
 
-func (C04) NonTrivial(sc *drv.Scenario, st *drv.RunStats) bool { return st.Probes["crash-points"] > 0 }
+func (C04) NonTrivial(sc *drv.Scenario, st *drv.RunStats) bool {
+	return st.Probes["crash-points"] > 0 || st.Probes["torn-log-cut-checked"] >= 8
+}
+
+// tornFilelog: see Generate.  Oracle: every start-up succeeds and no read panics or kills the process; a log cut
+// inside its last record reads exactly like the log cut at the start of that record (the torn record is
+// ignored: "exactly the records that were completely written"), and the intact log rebuilds the model's mappings.
+func (c C04) tornFilelog(sc *drv.Scenario, w *drv.World) (*drv.Violation, error) {
+	if _, err := w.Start(); err != nil {
+		return nil, err
+	}
+	x := NewLabelExec(w, "C04")
+	var prevMap map[uint64]uint64 // mapping before the last operation that was applied
+	for i, op := range sc.Steps {
+		w.CurStep = i
+		if op.Op == "tornlog" {
+			break
+		}
+		var before map[uint64]uint64
+		if x.M != nil && x.M.Versions[0] != nil {
+			before = map[uint64]uint64{}
+			for k, v := range x.M.Versions[0].Map {
+				before[k] = v
+			}
+		}
+		nm := len(x.MutIDs)
+		_, v, err := x.Apply(op)
+		if err != nil {
+			return nil, err
+		}
+		if v != nil && v.Oracle != "write-ack" {
+			v.Step = i
+			return v, nil
+		}
+		if len(x.MutIDs) > nm {
+			prevMap = before
+		}
+	}
+	if x.M == nil || prevMap == nil {
+		w.Discard()
+		return nil, nil
+	}
+	if err := w.Barrier(); err != nil {
+		return nil, err
+	}
+	lv := x.M.Versions[0]
+	mapLines := func(m map[uint64]uint64) string {
+		var ls []string
+		for sv := range lv.SVSizes() {
+			b := m[sv]
+			if b == 0 {
+				b = sv
+			}
+			if b != sv {
+				ls = append(ls, fmt.Sprintf("%d %d", sv, b))
+			}
+		}
+		sort.Strings(ls)
+		return strings.Join(ls, "\n")
+	}
+	full := mapLines(lv.Map)
+	if err := w.Stop("kill"); err != nil {
+		return nil, err
+	}
+	logDir := filepath.Join(w.Dir, "log")
+	ents, _ := os.ReadDir(logDir)
+	var file string
+	var orig []byte
+	for _, e := range ents {
+		b, err := os.ReadFile(filepath.Join(logDir, e.Name()))
+		if err == nil && len(b) > len(orig) && strings.HasSuffix(e.Name(), x.uuid(0)) {
+			file, orig = filepath.Join(logDir, e.Name()), b
+		}
+	}
+	if file == "" {
+		w.Stats.Probe("no-mutation-log-file")
+		return nil, nil
+	}
+	// record boundaries: 2-byte type, 4-byte length, payload
+	var starts []int
+	for pos := 0; pos+6 <= len(orig); {
+		starts = append(starts, pos)
+		pos += 6 + int(binary.LittleEndian.Uint32(orig[pos+2:pos+6]))
+	}
+	if len(starts) == 0 {
+		return nil, nil
+	}
+	last := starts[len(starts)-1]
+	var refState, refMappings string
+	viol := func(oracle, sig, detail string) *drv.Violation {
+		return &drv.Violation{Prop: "C04", Oracle: oracle, Sig: sig, Detail: detail, Step: len(sc.Steps) - 1}
+	}
+	for cut := last; cut <= len(orig); cut++ {
+		if err := os.WriteFile(file, orig[:cut], 0644); err != nil {
+			return nil, fmt.Errorf("%w: %v", drv.ErrInfra, err)
+		}
+		desc := fmt.Sprintf("mutation log of %d bytes (%d records, last record at %d) cut to %d bytes", len(orig), len(starts), last, cut)
+		_, err := w.Start()
+		var be *drv.BootError
+		if errors.As(err, &be) {
+			return viol("start-up", "start-up fails on a torn mutation log", desc+"\n"+be.Error()+"\n"+be.Stderr), nil
+		}
+		if err != nil {
+			if errors.Is(err, drv.ErrChildDied) {
+				d := strings.Join(w.Stats.ChildDeaths, "\n")
+				return viol("no-crash", "server dies at start-up on a torn mutation log: "+drv.PanicSig(d), desc+"\n"+d), nil
+			}
+			return nil, err
+		}
+		resps, err := w.Seq([]proto.Req{drv.GET(x.base(0) + "/mappings"), drv.GET(x.base(0) + "/raw/0_1_2/32_16_16/0_0_0"), drv.GET(x.base(0) + "/listlabels")})
+		if err != nil {
+			if errors.Is(err, drv.ErrChildDied) {
+				d := strings.Join(w.Stats.ChildDeaths, "\n")
+				return viol("no-crash", "server dies reading a version whose mutation log is torn: "+drv.PanicSig(d), desc+"\n"+d), nil
+			}
+			return nil, err
+		}
+		for _, rp := range resps {
+			if isPanic500(rp) {
+				return viol("no-crash", "a read panics on a torn mutation log: "+drv.PanicSig(string(rp.Body)), desc+"\n"+trunc(rp.Body)), nil
+			}
+		}
+		// Relational oracle: a log cut INSIDE its last record must read exactly like the log cut AT the start of
+		// that record (the torn record is ignored, nothing is invented); the intact log reads like the model.
+		state := ""
+		for _, rp := range resps {
+			state += fmt.Sprintf("%d %x\n", rp.Status, rp.Body)
+		}
+		served := func(rp proto.Resp) string {
+			var ls []string
+			for _, l := range strings.Split(strings.TrimSpace(string(rp.Body)), "\n") {
+				if f := strings.Fields(l); len(f) == 2 && f[0] != f[1] && f[1] != "0" {
+					ls = append(ls, f[0]+" "+f[1])
+				}
+			}
+			sort.Strings(ls)
+			return strings.Join(ls, "\n")
+		}
+		switch {
+		case cut == last:
+			refState, refMappings = state, served(resps[0])
+		case cut < len(orig):
+			if state != refState {
+				return viol("log-records", "a mutation log torn inside its last record reads differently from the log without that record",
+					fmt.Sprintf("%s\nanswers (mappings, raw, listlabels): %d %d %d, %s %s\nserved mappings:\n%s\nmappings served with the record removed entirely:\n%s", desc,
+						resps[0].Status, resps[1].Status, resps[2].Status, trunc(resps[1].Body), trunc(resps[2].Body), served(resps[0]), refMappings)), nil
+			}
+		default:
+			if resps[0].Status == 200 && served(resps[0]) != full {
+				return viol("log-records", "the intact mutation log does not rebuild the mappings of the acknowledged operations",
+					fmt.Sprintf("%s\nserved mappings:\n%s\nmodel:\n%s", desc, served(resps[0]), full)), nil
+			}
+		}
+		w.Stats.Probe("torn-log-cut-checked")
+		w.Stats.Faults["torn-filelog"]++
+		if err := w.Stop("kill"); err != nil {
+			return nil, err
+		}
+	}
+	w.Discard()
+	return nil, nil
+}
